@@ -206,6 +206,7 @@ fn streams(cx: &mut Ctx, count: u64, seed: u64) {
                         wfault: None,
                         accept: if rng.chance(1, 4) { Accept::Random(Rng::new(rng.next()), 5) } else { Accept::All },
                         keyed: true,
+                        buffered: false,
                         key_text: None,
                         label: format!("stream/{}/{}docs", s.fmt, s.docs.len()),
                     };
@@ -235,7 +236,7 @@ fn histories(cx: &mut Ctx, count: u64, seed: u64) {
             let from = if !s.docs.is_empty() && rng.chance(1, 3) && detected_as(&s.bytes) == Some(s.fmt) { "detect" } else { s.fmt };
             calls.push(call(&s, from, mode, true));
         }
-        let case = CaseSpec { to, calls, wfault: None, accept: Accept::All, keyed: false, key_text: None, label: format!("history/{ncalls}calls") };
+        let case = CaseSpec { to, calls, wfault: None, accept: Accept::All, keyed: false, buffered: false, key_text: None, label: format!("history/{ncalls}calls") };
         cx.run(&case, ncalls >= 2);
     }
 }
@@ -263,7 +264,7 @@ fn faults(cx: &mut Ctx, count: u64, seed: u64) {
             };
             let det_known = detected_as(&s.bytes) == Some(s.fmt);
             // fault-free output length
-            let base = CaseSpec { to, calls: vec![call(&s, s.fmt, Mode::Slice, true)], wfault: None, accept: Accept::All, keyed: false, key_text: None, label: "fault-free".into() };
+            let base = CaseSpec { to, calls: vec![call(&s, s.fmt, Mode::Slice, true)], wfault: None, accept: Accept::All, keyed: false, buffered: false, key_text: None, label: "fault-free".into() };
             let out_len = cx.run(&base, false).output.len();
             for k in 0..=s.bytes.len() {
                 let from = if det_known && !s.docs.is_empty() && rng.chance(1, 3) { "detect" } else { s.fmt };
@@ -275,12 +276,12 @@ fn faults(cx: &mut Ctx, count: u64, seed: u64) {
                 };
                 let mut c = call(&s, from, Mode::Reader(sc), true);
                 c.rfault = Some(k);
-                let case = CaseSpec { to, calls: vec![c], wfault: None, accept: Accept::All, keyed: false, key_text: None, label: format!("rfault@{k}") };
+                let case = CaseSpec { to, calls: vec![c], wfault: None, accept: Accept::All, keyed: false, buffered: false, key_text: None, label: format!("rfault@{k}") };
                 cx.run(&case, true);
             }
             for k in 0..out_len.min(300) {
                 let mode = if rng.chance(1, 2) { Mode::Slice } else { Mode::Reader(Sched::Random(Rng::new(rng.next()), 8)) };
-                let case = CaseSpec { to, calls: vec![call(&s, s.fmt, mode, true)], wfault: Some(k), accept: if rng.chance(1, 3) { Accept::Fixed(1) } else { Accept::All }, keyed: false, key_text: None, label: format!("wfault@{k}") };
+                let case = CaseSpec { to, calls: vec![call(&s, s.fmt, mode, true)], wfault: Some(k), accept: if rng.chance(1, 3) { Accept::Fixed(1) } else { Accept::All }, keyed: false, buffered: false, key_text: None, label: format!("wfault@{k}") };
                 cx.run(&case, true);
             }
             if s.fmt == "yaml" && !s.bytes.is_empty() && to != "toml" {
@@ -296,13 +297,13 @@ fn faults(cx: &mut Ctx, count: u64, seed: u64) {
                     };
                     let from = if rng.chance(1, 3) { "detect" } else { "yaml" };
                     let c = CallSpec { bytes: bytes.clone(), from, true_fmt: None, mode: Mode::Reader(sc), rfault: Some(k), docs: None, values: None, over_report: None };
-                    let case = CaseSpec { to, calls: vec![c], wfault: None, accept: Accept::All, keyed: false, key_text: None, label: format!("rfault@{k}/{enc}") };
+                    let case = CaseSpec { to, calls: vec![c], wfault: None, accept: Accept::All, keyed: false, buffered: false, key_text: None, label: format!("rfault@{k}/{enc}") };
                     cx.run(&case, true);
                 }
             }
             for acc in [Accept::Fixed(1), Accept::Fixed(3), Accept::Random(Rng::new(rng.next()), 7)] {
                 let mode = if rng.chance(1, 2) { Mode::Slice } else { Mode::Reader(Sched::Fixed(2)) };
-                let case = CaseSpec { to, calls: vec![call(&s, s.fmt, mode, true)], wfault: None, accept: acc, keyed: false, key_text: None, label: "short-writes".into() };
+                let case = CaseSpec { to, calls: vec![call(&s, s.fmt, mode, true)], wfault: None, accept: acc, keyed: false, buffered: false, key_text: None, label: "short-writes".into() };
                 cx.run(&case, true);
             }
         }
@@ -382,7 +383,7 @@ fn unknown(cx: &mut Ctx, count: u64, seed: u64) {
             }
             for m in modes {
                 let c = CallSpec { bytes: bytes.clone(), from, true_fmt: None, mode: m, rfault: None, docs: None, values: None, over_report: None };
-                let case = CaseSpec { to, calls: vec![c], wfault: None, accept: Accept::All, keyed: true, key_text: None, label: format!("mutated/{}", s.fmt) };
+                let case = CaseSpec { to, calls: vec![c], wfault: None, accept: Accept::All, keyed: true, buffered: false, key_text: None, label: format!("mutated/{}", s.fmt) };
                 cx.run(&case, true);
             }
         }
@@ -417,7 +418,7 @@ fn lag(cx: &mut Ctx, count: u64, seed: u64) {
                     if from == "detect" && !det_known {
                         continue;
                     }
-                    let case = CaseSpec { to, calls: vec![call(&s, from, Mode::Reader(sc.clone()), true)], wfault: None, accept: Accept::All, keyed: false, key_text: None, label: format!("lag/{}/{}docs", s.fmt, n) };
+                    let case = CaseSpec { to, calls: vec![call(&s, from, Mode::Reader(sc.clone()), true)], wfault: None, accept: Accept::All, keyed: false, buffered: false, key_text: None, label: format!("lag/{}/{}docs", s.fmt, n) };
                     cx.run(&case, true);
                 }
             }
@@ -471,7 +472,7 @@ fn encodings(cx: &mut Ctx, count: u64, seed: u64) {
                     }
                     for m in modes {
                         let c = CallSpec { bytes: bytes.clone(), from, true_fmt: None, mode: m, rfault: None, docs: None, values: None, over_report: None };
-                        let case = CaseSpec { to, calls: vec![c], wfault: None, accept: Accept::All, keyed: true, key_text: Some(key_text.clone()), label: format!("encoding/{name}") };
+                        let case = CaseSpec { to, calls: vec![c], wfault: None, accept: Accept::All, keyed: true, buffered: false, key_text: Some(key_text.clone()), label: format!("encoding/{name}") };
                         cx.run(&case, name != "utf8");
                     }
                 }
@@ -566,8 +567,39 @@ fn toml(cx: &mut Ctx, count: u64, seed: u64) {
             };
             calls.push(call(&s, s.fmt, mode, true));
         }
-        let case = CaseSpec { to: "toml", calls, wfault: None, accept: if rng.chance(1, 5) { Accept::Fixed(2) } else { Accept::All }, keyed: false, key_text: None, label: format!("toml/{ncalls}calls") };
+        let case = CaseSpec { to: "toml", calls, wfault: None, accept: if rng.chance(1, 5) { Accept::Fixed(2) } else { Accept::All }, keyed: false, buffered: false, key_text: None, label: format!("toml/{ncalls}calls") };
         cx.run(&case, true);
+    }
+}
+
+/// Documents at the size boundaries of the encodings and buffers: MessagePack collections and strings
+/// at the fix / 8 / 16 / 32-bit header boundaries, documents ending on or straddling 8 and 16 KiB.
+fn boundaries(cx: &mut Ctx, seed: u64) {
+    let mut rng = Rng::derive(seed, "boundaries", 0);
+    let mut vals: Vec<V> = vec![];
+    for n in [15usize, 16, 32768, 65535, 65536] {
+        vals.push(V::Map((0..n).map(|i| (V::Str(format!("k{i}")), V::Int(i as i128))).collect()));
+        vals.push(V::Seq((0..n).map(|i| V::Int(i as i128)).collect()));
+    }
+    for n in [31usize, 32, 255, 256, 8190, 16384, 65535, 65536] {
+        vals.push(V::Seq(vec![V::Str("s".repeat(n))]));
+    }
+    for (i, v) in vals.iter().enumerate() {
+        for fmt in ["msgpack", "json", "yaml"] {
+            if fmt != "msgpack" && v.nodes() > 70000 {
+                continue;
+            }
+            // the document alone, and between two small neighbours
+            let small = V::Seq(vec![V::Int(1)]);
+            for docs in [vec![v.clone()], vec![small.clone(), v.clone(), small.clone()]] {
+                let Some(s) = build_stream(fmt, &docs, &mut rng, false) else { continue };
+                let to = ["json", "msgpack", "yaml"][(i + docs.len()) % 3];
+                for m in [Mode::Slice, Mode::Reader(Sched::All), Mode::Reader(Sched::Fixed(4096)), Mode::Reader(Sched::Random(Rng::new(rng.next()), 5000))] {
+                    let case = CaseSpec { to, calls: vec![call(&s, s.fmt, m, true)], wfault: None, accept: Accept::All, keyed: true, buffered: true, key_text: None, label: format!("boundary/{fmt}/{}nodes", v.nodes()) };
+                    cx.run(&case, true);
+                }
+            }
+        }
     }
 }
 
@@ -586,7 +618,7 @@ fn witnesses(cx: &mut Ctx) {
         for to in tos {
             for m in [Mode::Slice, Mode::Reader(Sched::All), Mode::Reader(Sched::Fixed(1))] {
                 let c = CallSpec { bytes: bytes.clone(), from, true_fmt: None, mode: m, rfault: None, docs: None, values: None, over_report: None };
-                let case = CaseSpec { to, calls: vec![c], wfault: None, accept: Accept::All, keyed: true, key_text: None, label: "witness".into() };
+                let case = CaseSpec { to, calls: vec![c], wfault: None, accept: Accept::All, keyed: true, buffered: false, key_text: None, label: "witness".into() };
                 cx.run(&case, true);
             }
         }
@@ -595,7 +627,7 @@ fn witnesses(cx: &mut Ctx) {
     for to in ["json", "yaml"] {
         for m in [Mode::Slice, Mode::Reader(Sched::All)] {
             let c = CallSpec { bytes: Rc::new(vec![]), from: "yaml", true_fmt: Some("yaml"), mode: m, rfault: None, docs: Some(vec![]), values: Some(vec![]), over_report: None };
-            let case = CaseSpec { to, calls: vec![c], wfault: None, accept: Accept::All, keyed: false, key_text: None, label: "witness-known".into() };
+            let case = CaseSpec { to, calls: vec![c], wfault: None, accept: Accept::All, keyed: false, buffered: false, key_text: None, label: "witness-known".into() };
             cx.run(&case, true);
         }
     }
@@ -615,6 +647,7 @@ pub fn record(scenario: &str, out_path: &str, count: u64) {
             "lag" => lag(&mut cx, count, seed),
             "toml" => toml(&mut cx, count, seed),
             "witnesses" => witnesses(&mut cx),
+            "boundaries" => boundaries(&mut cx, seed),
             "encodings" => encodings(&mut cx, count, seed),
             other => {
                 eprintln!("unknown scenario {other}");
